@@ -281,7 +281,7 @@ func init() {
 			var obs []string
 			class := ""
 			short := ""
-			for k := skStatic; k <= skSuperset; k++ {
+			for k := skStatic; k <= skPoison; k++ {
 				s := sc
 				s.Kind = k
 				o, log := s.run()
